@@ -9,7 +9,7 @@ import (
 
 func init() {
 	register(&propDef{
-		ID: "C20", Level: "other", Run: withShared(runC20, share{"C09", runC09, ruleIs("counter-lockstep", "refusal")}, share{"C19", runC19, ruleIs("topup-bounded")}),
+		ID: "C20", Level: "other", Run: withShared(runC20, share{"C09", runC09, ruleIs("counter-lockstep", "refusal", "queue-discipline")}, share{"C19", runC19, ruleIs("topup-bounded")}),
 		Explanation: "THIN. Of the first sentence (rebalancing settles) only structural necessary conditions are decided: the level a low table is topped up to, the level above which a table has a surplus and the level at which releasing stops use one rounding of the water level (otherwise tables are filled to one level and drained towards another for ever); the stop level is computed by one full pass over the tables in which a table is either counted under PlayerCount <= level or has its own player count taken off the total. The second sentence is decided in shape: on every break path of SyncState the table broken is the syncing one, the path carries the test that more tables exist than the players need, the release count handed back is the table's full player count after the break succeeded, and no players are handed to it; ReleasePlayers appends its whole argument to the waiting queue on every path and, unless the competition is pending, drains the queue. Convergence of repeated sweeps (no oscillation, bounded number of sweeps) is a liveness property of a numeric fixed point and is NOT decided.",
 		Trusted:     commonTrusted,
 		Assumptions: []string{"tables carry out the release they are told (the property's premise)"},
